@@ -12,6 +12,11 @@
 //!   KIND 4: actor 0 = blocking recv on rx0, actor 2 = sibling rx1 try_recv (shared stream)
 //!           actor 1: tx0 sends 1, sends 2
 //!   KIND 5: actor 0 = blocking recv_view on ux0              actor 1: tx0 sends 1
+//!   KIND 6: actor 0 = blocking recv on rx0; tx1 = clone of tx0 exists
+//!           actor 1: drops tx1, then tx0 sends 1 (the sender falls back to single-writer mode)
+//! With `lap` the ring is first lapped once (N sends, N receives): on a never-written slot the
+//! wait condition is immediately true (the initial tag counts as "ahead"), so only on a lapped
+//! ring does the receiver really go to sleep.
 
 use crate::fl::*;
 use crate::ledger::{self, lg, *};
@@ -35,7 +40,7 @@ impl<F: Fl, const KIND: u8> Prog for Wt<F, KIND> {
     const NACT: usize = if KIND == 4 { 3 } else { 2 };
     const LEN: [u8; MAXACT] = [
         1,
-        if KIND == 2 || KIND == 4 { 2 } else { 1 },
+        if KIND == 2 || KIND == 4 || KIND == 6 { 2 } else { 1 },
         if KIND == 4 { 1 } else { 0 },
         0,
     ];
@@ -46,6 +51,7 @@ impl<F: Fl, const KIND: u8> Prog for Wt<F, KIND> {
             (5, 0, _) => op_u_view_blocking::<F>(0, 0),
             (_, 0, _) => op_recv_blocking::<F>(0, 0),
             (3, 1, _) => op_drop_tx::<F>(4, 0),
+            (6, 1, 0) => op_drop_tx::<F>(5, 1),
             (2, 1, 1) => op_drop_tx::<F>(5, 0),
             (4, 1, 1) => op_send::<F>(5, 0, 2),
             (_, 1, _) => op_send::<F>(4, 0, 1),
@@ -75,12 +81,31 @@ impl<F: Fl, const KIND: u8> Prog for Wt<F, KIND> {
 }
 
 pub fn blocked_recv<F: Fl, const KIND: u8>(cap: u64, idle_limit: u32) {
+    blocked_recv_lap::<F, KIND>(cap, idle_limit, 0)
+}
+
+pub fn blocked_recv_lap<F: Fl, const KIND: u8>(cap: u64, idle_limit: u32, lap: u8) {
     ledger::reset();
     payload::reset();
     sched::configure(1, 3, sched::MEM_KINDS, 2);
-    sched::st().idle_limit = idle_limit;
+    sched::st().idle_limit = if idle_limit == 0 { 24 } else { idle_limit };
     let mut w = World::<F>::new(cap);
     set_world::<F>(&mut w);
+    // lap the ring once: `lap` = N sends each followed by a receive
+    let mut i = 0;
+    while i < lap {
+        let ss = crate::finish::PRE_SEND_SLOT0 + i as usize;
+        let rs = crate::finish::PRE_RECV_SLOT0 + i as usize;
+        ledger::declare_send(ss, 8, 5 + i);
+        ledger::declare_recv(rs, 8, 0);
+        op_send::<F>(ss, 0, 5 + i);
+        op_recv::<F>(rs, 0);
+        assert!(lg().recs[rs].res == R_OK, "C09: a receive on a non-empty quiescent queue did not deliver");
+        i += 1;
+    }
+    if KIND == 6 {
+        w.tx[1] = Some(F::clone_tx(w.tx[0].as_ref().unwrap()));
+    }
     if KIND == 4 {
         w.rx[1] = Some(F::clone_rx(w.rx[0].as_ref().unwrap()));
     }
@@ -103,9 +128,16 @@ pub fn blocked_recv<F: Fl, const KIND: u8>(cap: u64, idle_limit: u32) {
             ledger::declare_send(5, 1, 2);
             ledger::declare_recv(8, 2, 0);
         }
+        6 => {
+            ledger::declare_other(5, 1);
+            ledger::declare_send(4, 1, 1);
+        }
         _ => ledger::declare_send(4, 1, 1),
     }
     run_concurrent::<Wt<F, KIND>, 0>();
+    if lap > 0 && idle_limit == 0 {
+        kani::cover!(sched::st().cv_entered, "the receiver really went to sleep on the condvar");
+    }
     // the waiter returned: with a value, or with the end only if the sender is really gone
     let r = lg().recs[0];
     kani::cover!(r.res == R_OK, "the blocked receiver returned a value");
@@ -140,6 +172,9 @@ macro_rules! wt {
     ($name:ident, $hk:ident, $f:ty, $kind:literal, $idle:expr, cap $cap:literal) => {
         crate::mq_harness!($name, $hk, Runner<Wt<$f, $kind>, 0>, blocked_recv::<$f, $kind>($cap, $idle));
     };
+    ($name:ident, $hk:ident, $f:ty, $kind:literal, $idle:expr, cap $cap:literal, lap $lap:literal) => {
+        crate::mq_harness!($name, $hk, Runner<Wt<$f, $kind>, 0>, blocked_recv_lap::<$f, $kind>($cap, $idle, $lap));
+    };
 }
 
 // BlockingWait (condvar): the stuck detector sits in the shim condvar wait
@@ -152,6 +187,14 @@ wt!(c08_bc_blk00_sibling_n1, hk_c08_bc_blk00_sibling_n1, BcBlk00, 4, 0, cap 1);
 wt!(c08_mp_blk00_sibling_n1, hk_c08_mp_blk00_sibling_n1, MpBlk00, 4, 0, cap 1);
 wt!(c08_mp_blk11_send, hk_c08_mp_blk11_send, MpBlk11, 1, 0);
 wt!(c08_bc_blk20_view, hk_c08_bc_blk20_view, BcBlk20, 5, 0);
+// lapped ring: the receiver really parks
+wt!(c08_mp_blk00_send_lap, hk_c08_mp_blk00_send_lap, MpBlk00, 1, 0, cap 1, lap 1);
+wt!(c08_bc_blk00_senddrop_lap, hk_c08_bc_blk00_senddrop_lap, BcBlk00, 2, 0, cap 2, lap 2);
+wt!(c08_mp_blk00_drop_lap, hk_c08_mp_blk00_drop_lap, MpBlk00, 3, 0, cap 1, lap 1);
+wt!(c08_bc_blk00_sibling_lap, hk_c08_bc_blk00_sibling_lap, BcBlk00, 4, 0, cap 1, lap 1);
+wt!(c08_mp_blk00_lonesender_lap, hk_c08_mp_blk00_lonesender_lap, MpBlk00, 6, 0, cap 1, lap 1);
+wt!(c08_bc_blk11_lonesender_lap, hk_c08_bc_blk11_lonesender_lap, BcastPlain<u8, Blocking<1, 1>>, 6, 0, cap 2, lap 2);
+wt!(c08_bc_blk20_view_lap, hk_c08_bc_blk20_view_lap, BcBlk20, 5, 0, cap 1, lap 1);
 // spinning strategies: the stuck detector fires after 24 fruitless steps with nobody left to run
 wt!(c08_mp_busy_send, hk_c08_mp_busy_send, MpBusy, 1, 24);
 wt!(c08_mp_busy_drop, hk_c08_mp_busy_drop, MpBusy, 3, 24);
